@@ -36,6 +36,11 @@ func (proj *SR) getDatum() *datum {
 
 	if len(proj.DatumParams) > 0 {
 		this.datum_params = proj.DatumParams
+		if this.datum_type == pjdNoDatum {
+			// An explicit +towgs84, even with all terms zero, states that the
+			// datum is known (aligned with WGS84 on this ellipsoid).
+			this.datum_type = pjdWGS84
+		}
 		if this.datum_params[0] != 0 || this.datum_params[1] != 0 || this.datum_params[2] != 0 {
 			this.datum_type = pjd3Param
 		}
